@@ -199,6 +199,7 @@ def run_C15(ctx, R):
 def run_C16(ctx, R):
     from .rules import tab, lst, out, utilsx
     _scoped(ctx, R, utilsx.tab18, C16_ENTRIES, 3)
+    _per_config(ctx, R, _inl(utilsx.numu))
     _scoped(ctx, R, utilsx.ord1, C16_ENTRIES, 3)
     _per_config(ctx, R, _own_utils({'apply_patch', 'detach_path', 'cJSONUtils_ApplyPatches', 'cJSONUtils_ApplyPatchesCaseSensitive'}))
     _per_config(ctx, R, tab.tab12)
@@ -227,6 +228,7 @@ def _own_utils(names):
 def run_C17(ctx, R):
     from .rules import tab, lst, out, utilsx
     _per_config(ctx, R, lambda units, r: utilsx.inputs_only_relinked(units, r, roots=('create_patches',)))
+    _per_config(ctx, R, _inl(utilsx.numu))
     _per_config(ctx, R, _own_utils({'create_patches', 'compose_patch', 'cJSONUtils_GeneratePatches', 'cJSONUtils_GeneratePatchesCaseSensitive'}))
     _scoped(ctx, R, tab.tab20, C17_ENTRIES, 0)
     from .rules import cmpfold
@@ -250,6 +252,7 @@ def run_C18(ctx, R):
     _per_config(ctx, R, lambda units, r: utilsx.inputs_only_relinked(units, r, roots=('generate_merge_patch', 'compare_json')))
     _per_config(ctx, R, _own_utils({'merge_patch', 'generate_merge_patch'}))
     _per_config(ctx, R, utilsx.mrg)
+    _per_config(ctx, R, _inl(utilsx.numu))
     _scoped(ctx, R, tab.tab20, C18_ENTRIES, 0)
     _scoped(ctx, R, tab.tab11, C18_ENTRIES, 15)
     _scoped(ctx, R, lst.lst1, C18_ENTRIES, 3)
